@@ -41,8 +41,8 @@ Theorem restore_ok_implies_verified : forall (B : Type) (H : list B -> N) (body 
     (cks : list B -> N) (parse_ok : list B -> bool) (hdr_min hdr_max : list B -> N)
     (image : list (list B) -> list B) (stored : pinfo -> option (list B))
     (sched : pinfo -> list outcome) (chunk : nat)
-    out_exists plan integ integ_ok img ops,
-  restore H body cks parse_ok hdr_min hdr_max image stored sched chunk out_exists plan integ integ_ok = (ROk img, ops) ->
+    out_exists plan integ integ_res cancelled img ops,
+  restore H body cks parse_ok hdr_min hdr_max image stored sched chunk out_exists plan integ integ_res cancelled = (ROk img, ops) ->
   out_exists = false /\
   exists fs bs, plan = Some fs /\ fs <> [] /\
     Forall (fun f => ltx_header_size <= p_size f) fs /\
@@ -50,7 +50,7 @@ Theorem restore_ok_implies_verified : forall (B : Type) (H : list B -> N) (body 
     Forall (fun d => verified H body cks parse_ok d = true) bs /\
     chain_ok hdr_min hdr_max bs = true /\
     img = image bs /\
-    (integ = true -> integ_ok img = true).
+    (integ = true -> integ_res img = IOk).
 Proof. exact Proofs.restore_ok_implies_verified. Qed.
 Print Assumptions restore_ok_implies_verified.
 
@@ -61,11 +61,11 @@ Theorem restore_corruption : forall (B : Type) (H : list B -> N) (body : list B 
     (cks : list B -> N) (parse_ok : list B -> bool) (hdr_min hdr_max : list B -> N)
     (image : list (list B) -> list B) (stored : pinfo -> option (list B))
     (sched : pinfo -> list outcome) (chunk : nat)
-    plan fs integ integ_ok f b b',
+    plan fs integ integ_res cancelled f b b',
   plan = Some fs -> In f fs -> verified H body cks parse_ok b = true ->
   stored f = Some b' -> p_size f = length b' ->
   (cks b' = cks b /\ H (body b') <> H (body b)) \/ (body b' = body b /\ cks b' <> cks b) ->
-  exists e ops, restore H body cks parse_ok hdr_min hdr_max image stored sched chunk false plan integ integ_ok = (RErr e, ops).
+  exists e ops, restore H body cks parse_ok hdr_min hdr_max image stored sched chunk false plan integ integ_res cancelled = (RErr e, ops).
 Proof. exact Proofs.restore_corruption. Qed.
 Print Assumptions restore_corruption.
 
@@ -74,36 +74,54 @@ Theorem restore_detects : forall (B : Type) (H : list B -> N) (body : list B -> 
     (cks : list B -> N) (parse_ok : list B -> bool) (hdr_min hdr_max : list B -> N)
     (image : list (list B) -> list B) (stored : pinfo -> option (list B))
     (sched : pinfo -> list outcome) (chunk : nat)
-    plan fs integ integ_ok f,
+    plan fs integ integ_res cancelled f,
   plan = Some fs -> In f fs ->
   (stored f = None \/ exists b', stored f = Some b' /\ p_size f = length b' /\ verified H body cks parse_ok b' = false) ->
-  exists e ops, restore H body cks parse_ok hdr_min hdr_max image stored sched chunk false plan integ integ_ok = (RErr e, ops).
+  exists e ops, restore H body cks parse_ok hdr_min hdr_max image stored sched chunk false plan integ integ_res cancelled = (RErr e, ops).
 Proof. exact Proofs.restore_detects. Qed.
 Print Assumptions restore_detects.
 
-(** Output discipline, for all inputs and read-fault schedules. *)
+(** Output discipline, for all inputs, read-fault schedules, all three outcomes
+    of the integrity check (ok / corruption reported as rows / the statement
+    itself fails) and a cancelled or live context. *)
 Theorem restore_output_discipline : forall (B : Type) (H : list B -> N) (body : list B -> list B)
     (cks : list B -> N) (parse_ok : list B -> bool) (hdr_min hdr_max : list B -> N)
     (image : list (list B) -> list B) (stored : pinfo -> option (list B))
     (sched : pinfo -> list outcome) (chunk : nat)
-    out_exists plan integ integ_ok,
-  let '(res, ops) := restore H body cks parse_ok hdr_min hdr_max image stored sched chunk out_exists plan integ integ_ok in
+    out_exists plan integ (integ_res : list B -> ires) cancelled,
+  let '(res, ops) := restore H body cks parse_ok hdr_min hdr_max image stored sched chunk out_exists plan integ integ_res cancelled in
   let fsf := fs_run (fs_init out_exists) ops in
   f_bad fsf = false /\ ~ In OpenOutForWrite ops /\
   (out_exists = true -> ops = [StatOut] /\ (exists e, res = RErr e) /\ f_out fsf = Some false) /\
   (out_exists = false ->
      match res with
      | ROk _ => f_out fsf = Some true /\ f_tmp fsf = TAbsent
-     | RErr _ => f_out fsf = None /\ f_tmp fsf = TAbsent /\ f_side fsf = false
+     | RErr _ => f_tmp fsf = TAbsent /\
+                 (cancelled = false -> f_out fsf = None /\ f_side fsf = false) /\
+                 (f_out fsf = None \/ f_out fsf = Some true)
      end) /\
-  obs_ok out_exists (match res with ROk _ => 0%N | RErr _ => 1%N end)
+  obs_ok out_exists cancelled (match res with ROk _ => 0%N | RErr _ => 1%N end)
          (match f_out fsf with Some _ => true | None => false end)
          (match f_tmp fsf with TAbsent => false | _ => true end)
-         true
+         (match f_out fsf with Some true => true | _ => false end)
          (match f_out fsf with Some false => true | _ => false end)
          (f_side fsf) = true.
 Proof. exact Proofs.restore_output_discipline. Qed.
 Print Assumptions restore_output_discipline.
+
+(** Whichever way the integrity check fails (rows or statement error), with a
+    live context the output, -shm and -wal are removed. *)
+Theorem restore_integrity_failure_removes_output : forall (B : Type) (H : list B -> N) (body : list B -> list B)
+    (cks : list B -> N) (parse_ok : list B -> bool) (hdr_min hdr_max : list B -> N)
+    (image : list (list B) -> list B) (stored : pinfo -> option (list B))
+    (sched : pinfo -> list outcome) (chunk : nat)
+    out_exists plan integ (integ_res : list B -> ires) ops,
+  restore H body cks parse_ok hdr_min hdr_max image stored sched chunk out_exists plan integ integ_res false = (RErr R_INTEG, ops) ->
+  let fsf := fs_run (fs_init out_exists) ops in
+  In RemoveOut ops /\ In RemoveShm ops /\ In RemoveWal ops /\
+  f_out fsf = None /\ f_tmp fsf = TAbsent /\ f_side fsf = false.
+Proof. exact Proofs.restore_integrity_failure_removes_output. Qed.
+Print Assumptions restore_integrity_failure_removes_output.
 
 (** Finding F7 (known finding C10/ltx-decoder-close-panics-...): the decoder's
     Close panics instead of returning an error exactly when fewer than 8 bytes
